@@ -375,7 +375,7 @@ class ARModel(OLSModel):
             if len(self.rho.shape) not in [0, 1]:
                 raise ValueError("AR parameters must be a scalar or a vector")
             if self.rho.shape == ():
-                self.rho.shape = (1,)
+                self.rho = self.rho.reshape((1,))
             self.order = self.rho.shape[0]
         super().__init__(design)
 
